@@ -43,12 +43,18 @@ def build_kwargs(case, root, out):
     kw["meta_version"] = str(case["version"])
     for k, v in (case.get("opts") or {}).items():
         kw[k] = v
+    sw = case.get("swallowed")           # library form of the same thing: the path is the last element of a list option
+    if sw:
+        key = {"A": "announce", "W": "url_list", "H": "httpseeds"}[sw]
+        kw[key] = list(kw[key] if isinstance(kw[key], list) else [kw[key]]) + [root]
+        del kw["path"]
     return kw
 
 
 def build_argv(case, root, out):
-    argv = list(case.get("pre", [])) + ["create", root, "-o", out, "--prog", str(case.get("progress", 0)),
-                                         "--meta-version", str(case["version"])]
+    sw = case.get("swallowed")           # the content path comes LAST, right after the values of a list-valued flag
+    argv = list(case.get("pre", [])) + ["create"] + ([] if sw else [root]) + ["-o", out, "--prog", str(case.get("progress", 0)),
+                                                                                "--meta-version", str(case["version"])]
     if case.get("P"):
         argv += ["--piece-length", str(case["P"])]
     if case.get("align"):
@@ -66,6 +72,12 @@ def build_argv(case, root, out):
         argv += ["-s", o["source"]]
     if o.get("comment"):
         argv += ["-c", o["comment"]]
+    if sw:
+        flag, key = {"A": ("-a", "announce"), "W": ("--web-seed", "url_list"), "H": ("--http-seed", "httpseeds")}[sw]
+        vals = list(o[key] if isinstance(o[key], list) else [o[key]])
+        k = argv.index(flag)
+        del argv[k:k + 1 + len(vals)]
+        argv += [flag] + vals + [root]
     return argv
 
 
@@ -199,6 +211,15 @@ def run_create(case):
         tree = case["tree"]
         base = os.path.join(sbx, "q", "deeper") if case.get("copy") else os.path.join(sbx, "p")
         root = alpha.materialize(tree, base)
+        if case.get("file_meta"):        # other permission bits and old time stamps on the payload: not part of the payload
+            k = case["file_meta"]
+            for dp, dns, fns in os.walk(root):
+                for fn in sorted(fns):
+                    p = os.path.join(dp, fn)
+                    if not os.path.islink(p):
+                        k += 1
+                        os.chmod(p, (0o755, 0o600, 0o444, 0o775, 0o711)[k % 5])
+                        os.utime(p, (978307200 + k, 978307200 + 60 * k))
         os.makedirs(os.path.join(sbx, "o"))
         os.makedirs(os.path.join(sbx, "elsewhere"))
         out = os.path.join(sbx, "o", case.get("outname", "m.torrent"))
